@@ -15,6 +15,7 @@ import sys
 import time
 
 VERIF = os.path.dirname(os.path.dirname(os.path.abspath(__file__)))
+REPO = os.environ.get("VERIF_REPO", "/repo")   # a scratch worktree can stand in for /repo (the checks read the same variable)
 sys.path.insert(0, VERIF)
 import props
 
@@ -83,10 +84,10 @@ def main():
         which = sys.argv[sys.argv.index("--checks") + 1]
     pids = sorted(props.PROPS) if which == "all" else which.split(",")
     # apply to /repo, run, undo
-    rc, o = sh("git -C /repo status --porcelain")
+    rc, o = sh("git -C %s status --porcelain" % REPO)
     if o.strip():
         print("refusing: /repo has uncommitted changes"); return 2
-    rc, o = sh("git -C /repo apply %s" % os.path.join(dest, "patch.diff"))
+    rc, o = sh("git -C %s apply %s" % (REPO, os.path.join(dest, "patch.diff")))
     if rc != 0:
         print("patch does not apply to /repo:", o); return 2
     results = {}
@@ -96,7 +97,7 @@ def main():
                 results[pid] = {"exit": rc, "wall_s": wall, "lines": lines}
                 print(pid, "exit", rc, wall, "s", "|", " ; ".join(l[:160] for l in lines[:3]))
     finally:
-        sh("git -C /repo checkout -- .")
+        sh("git -C %s checkout -- ." % REPO)
     meta["checks_run"] = results
     meta["caught_by"] = sorted(p for p, r in results.items() if r["exit"] == 1)
     meta["undecided_in"] = sorted(p for p, r in results.items() if r["exit"] == 2)
